@@ -170,6 +170,66 @@ def c09() -> List[M]:
     ]
 
 
+def c04() -> List[M]:
+    ARM = "self._timer = asyncio.get_running_loop().call_later(self.timeout, self._timeout_mechanism)"
+    return [
+        M("C04", "udp-send-without-timer", P, "        self._transport.sendto(payload)\n        " + ARM + "\n", "        self._transport.sendto(payload)\n", "C04.R1"),
+        M("C04", "tcp-timer-wrong-delay", P, "        self._transport.write(payload)\n        " + ARM, "        self._transport.write(payload)\n        self._timer = asyncio.get_running_loop().call_later(self.timeout * 1000, self._timeout_mechanism)", "C04.R1"),
+        M("C04", "tcp-timer-wrong-callback", P, "        self._transport.write(payload)\n        " + ARM, "        self._transport.write(payload)\n        self._timer = asyncio.get_running_loop().call_later(self.timeout, self._close_transport)", "C04.R1"),
+        M("C04", "udp-timer-handle-dropped", P, "        self._transport.sendto(payload)\n        " + ARM, "        self._transport.sendto(payload)\n        asyncio.get_running_loop().call_later(self.timeout, self._timeout_mechanism)", "C04.R1"),
+        M("C04", "udp-invalid-datagram-ignored", P, "                asyncio.get_running_loop().call_soon(self._timeout_mechanism)\n", "                pass\n", "C04.R2"),
+        M("C04", "udp-partial-no-rearm", P, "            self._partial_missing = ex.expected - ex.length\n            " + ARM + "\n        except asyncio.InvalidStateError:\n            logger.debug(\"Response already handled: %s\", data.hex())\n        except RequestRejectedException as ex:\n            logger.debug(\"Received exception response: %s\", data.hex())\n            if self.response_future and not self.response_future.done():\n                self.response_future.set_exception(ex)\n            self._close_transport()",
+          "            self._partial_missing = ex.expected - ex.length\n        except asyncio.InvalidStateError:\n            logger.debug(\"Response already handled: %s\", data.hex())\n        except RequestRejectedException as ex:\n            logger.debug(\"Received exception response: %s\", data.hex())\n            if self.response_future and not self.response_future.done():\n                self.response_future.set_exception(ex)\n            self._close_transport()", "C04.R2"),
+        M("C04", "tcp-invalid-response-ignored", P, "                self.response_future.set_exception(RequestRejectedException())\n                self._close_transport()\n", "                pass\n", "C04.R2"),
+        M("C04", "udp-rejected-not-delivered", P, "            if self.response_future and not self.response_future.done():\n                self.response_future.set_exception(ex)\n            self._close_transport()\n", "            pass\n", "C04.R2"),
+        M("C04", "udp-timeout-does-not-cancel", P, "            if self.response_future and not self.response_future.done():\n                self.response_future.cancel()\n\n    async def close(self):", "            pass\n\n    async def close(self):", "C04.R3"),
+        M("C04", "close-transport-keeps-future-pending", P, "        if self.response_future and not self.response_future.done():\n            self.response_future.cancel()\n\n    async def close(self) -> None:", "        pass\n\n    async def close(self) -> None:", "C04.R3"),
+        M("C04", "tcp-timeout-does-not-close", P, "                self._timer = None\n            self._close_transport()\n", "                self._timer = None\n", "C04.R3"),
+        M("C04", "udp-retry-no-increment", P, "            if self._retry < self.retries:\n                self._retry += 1\n                if self._lock and self._lock.locked():\n                    self._lock.release()\n                if not self.keep_alive:",
+          "            if self._retry < self.retries:\n                if self._lock and self._lock.locked():\n                    self._lock.release()\n                if not self.keep_alive:", "C04.R4"),
+        M("C04", "udp-retry-off-by-one", P, "            if self._retry < self.retries:\n                self._retry += 1\n                if self._lock and self._lock.locked():\n                    self._lock.release()\n                if not self.keep_alive:",
+          "            if self._retry <= self.retries:\n                self._retry += 1\n                if self._lock and self._lock.locked():\n                    self._lock.release()\n                if not self.keep_alive:", "C04.R4"),
+        M("C04", "tcp-connect-retry-no-increment", P, "                logger.debug(\"Connection refused error.\")\n                self._retry += 1\n", "                logger.debug(\"Connection refused error.\")\n", "C04.R4"),
+        M("C04", "tcp-retry-resets-counter", P, "                    logger.debug(\"Connection broken error.\")\n                self._retry += 1\n", "                    logger.debug(\"Connection broken error.\")\n                self._retry += 1\n                self._retry = 0\n", "C04.R4"),
+        M("C04", "max-retries-future-left-pending", P, "        self.response_future.set_exception(MaxRetriesException)\n", "", "C04.R4"),
+        M("C04", "udp-exhausted-budget-retries-anyway", P, "                return await self.send_request(command)\n            return self._max_retries_reached()\n        finally:\n            if self._lock and self._lock.locked():\n                self._lock.release()\n            if not self.keep_alive:",
+          "                return await self.send_request(command)\n            return await self.send_request(command)\n        finally:\n            if self._lock and self._lock.locked():\n                self._lock.release()\n            if not self.keep_alive:", "C04.R4"),
+        M("C04", "tcp-connect-unbounded", P, "            await asyncio.wait_for(self._connect(), timeout=5)", "            await self._connect()", "C04.R5"),
+        M("C04", "tcp-connect-bound-50s", P, "            await asyncio.wait_for(self._connect(), timeout=5)", "            await asyncio.wait_for(self._connect(), timeout=50)", "C04.R5"),
+        M("C04", "benign-budget-test-flipped", P, "            if self._retry < self.retries:\n                self._retry += 1\n                if self._lock and self._lock.locked():\n                    self._lock.release()\n                if not self.keep_alive:",
+          "            if self.retries > self._retry:\n                self._retry = self._retry + 1\n                if self._lock and self._lock.locked():\n                    self._lock.release()\n                if not self.keep_alive:", "clean"),
+    ]
+
+
+def c05() -> List[M]:
+    return [
+        M("C05", "revert-fix-discover-args", INIT, "UdpInverterProtocol(host, port, 0, timeout, retries)", "UdpInverterProtocol(host, port, timeout, retries)", "C05.R1"),
+        M("C05", "revert-fix-search-args", INIT, 'UdpInverterProtocol("255.255.255.255", 48899, 0, 1, 0)', 'UdpInverterProtocol("255.255.255.255", 48899, 1, 0)', "C05.R1"),
+        M("C05", "revert-fix-max-retries-reset", P, "        self._close_transport()\n        self._retry = 0\n        self.response_future = asyncio.get_running_loop().create_future()",
+          "        self._close_transport()\n        self.response_future = asyncio.get_running_loop().create_future()", "C05.R2"),
+        M("C05", "revert-fix-udp-rejected-reset", P, "            self._retry = 0\n            if self.response_future and not self.response_future.done():\n                self.response_future.set_exception(ex)\n            self._close_transport()",
+          "            if self.response_future and not self.response_future.done():\n                self.response_future.set_exception(ex)\n            self._close_transport()", "C05.R2"),
+        M("C05", "revert-fix-tcp-invalid-reset", P, "                self._retry = 0\n                self.response_future.set_exception(RequestRejectedException())", "                self.response_future.set_exception(RequestRejectedException())", "C05.R2"),
+        M("C05", "revert-fix-udp-error-reset", P, "        self._retry = 0\n        try:\n            self.response_future.set_exception(exc)", "        try:\n            self.response_future.set_exception(exc)", "C05.R2"),
+        M("C05", "success-does-not-reset", P, "                logger.debug(\"Received: %s\", data.hex())\n                self._retry = 0\n                self.response_future.set_result(data)\n            else:\n                logger.debug(\"Received invalid response: %s\", data.hex())\n                asyncio",
+          "                logger.debug(\"Received: %s\", data.hex())\n                self.response_future.set_result(data)\n            else:\n                logger.debug(\"Received invalid response: %s\", data.hex())\n                asyncio", "C05.R2"),
+        M("C05", "connect-swaps-timeout-retries", INIT, "        inv = ET(host, port, comm_addr, timeout, retries)", "        inv = ET(host, port, comm_addr, retries, timeout)", "C05.R1"),
+        M("C05", "discover-et-uses-default-like-literal-roles", INIT, "                    i = DT(host, port, 0, timeout, retries)", "                    i = DT(host, port, 0, retries, timeout)", "C05.R1"),
+        M("C05", "probe-loop-drops-comm-addr", INIT, "        i = inv(host, port, 0, timeout, retries)", "        i = inv(host, port, timeout, retries)", "C05.R1"),
+        M("C05", "create-protocol-tcp-swapped", INV, "            return TcpInverterProtocol(host, port, comm_addr, timeout, retries)", "            return TcpInverterProtocol(host, port, comm_addr, retries, timeout)", "C05.R1"),
+        M("C05", "es-init-drops-timeout", ES, "        super().__init__(host, port, comm_addr if comm_addr else 0xf7, timeout, retries)\n        self._settings: dict[str, Sensor] = {s.id_: s for s in self.__all_settings}\n\n    def _supports_eco_mode_v2",
+          "        super().__init__(host, port, comm_addr if comm_addr else 0xf7, retries, retries)\n        self._settings: dict[str, Sensor] = {s.id_: s for s in self.__all_settings}\n\n    def _supports_eco_mode_v2", "C05.R1"),
+        M("C05", "protocol-init-swaps-fields", P, "        self.timeout: int = timeout\n        self.retries: int = retries", "        self.timeout: int = retries\n        self.retries: int = timeout", "C05.R1"),
+        M("C05", "udp-init-super-swapped", P, "    def __init__(self, host: str, port: int, comm_addr: int, timeout: int = 1, retries: int = 3):\n        super().__init__(host, port, comm_addr, timeout, retries)",
+          "    def __init__(self, host: str, port: int, comm_addr: int, timeout: int = 1, retries: int = 3):\n        super().__init__(host, port, comm_addr, retries, timeout)", "C05.R1"),
+        M("C05", "retries-consumed-permanently", P, "                self._retry += 1\n                if self._lock and self._lock.locked():\n                    self._lock.release()\n                if not self.keep_alive:",
+          "                self._retry += 1\n                self.retries -= 0\n                if self._lock and self._lock.locked():\n                    self._lock.release()\n                if not self.keep_alive:", "C05.R1"),
+        M("C05", "ensure-lock-keeps-old-transport", P, "        self._running_loop = asyncio.get_event_loop()\n        self._close_transport()\n", "        self._running_loop = asyncio.get_event_loop()\n", "C05.R3"),
+        M("C05", "ensure-lock-ignores-loop", P, "        if self._lock and self._running_loop == asyncio.get_event_loop():", "        if self._lock:", "C05.R3"),
+        M("C05", "benign-keyword-arguments", INIT, "        inv = ET(host, port, comm_addr, timeout, retries)", "        inv = ET(host, port, comm_addr, retries=retries, timeout=timeout)", "clean"),
+    ]
+
+
 def corpus() -> List[M]:
     out: List[M] = []
     for name, fn in sorted(globals().items()):
